@@ -1856,6 +1856,26 @@ broadcast_shapes invert bitwise_and bitwise_or mod floor_divide cumprod iterable
 """.split()
 
 
+class UFunc:
+    """callable summary of a numpy ufunc with .reduce / .outer"""
+
+    def __init__(self, name):
+        self.name = name
+        self.__name__ = name
+        self._f = _wrap_generic(getattr(np, name), name)
+        self._ufunc = getattr(np, name)
+
+    def __call__(self, *a, **k):
+        return self._f(*a, **k)
+
+    def reduce(self, a, axis=0, **kw):
+        a = asarray(a) if not isinstance(a, np.ndarray) else a
+        return san(self._ufunc.reduce(a, axis=axis, **kw), self.name + ".reduce")
+
+    def outer(self, a, b, **kw):
+        return san(self._ufunc.outer(asarray(a), asarray(b), **kw), self.name + ".outer")
+
+
 def _np_any(a, axis=None, **kw):
     if isinstance(a, np.ndarray) and a.dtype == object:
         a = a != 0
@@ -1912,6 +1932,8 @@ def externals(it):
     for name in _GENERIC:
         if hasattr(np, name):
             ns[name] = _wrap_generic(getattr(np, name), name)
+    for name in ("logical_and", "logical_or", "logical_xor", "add", "multiply", "subtract", "bitwise_and", "bitwise_or"):
+        ns[name] = UFunc(name)
     ns.update(
         array=array, asarray=asarray, asanyarray=asarray, ascontiguousarray=asarray, zeros=zeros, ones=ones, empty=empty,
         full=full, zeros_like=zeros_like, ones_like=ones_like, empty_like=empty_like, full_like=full_like, eye=eye,
